@@ -9,12 +9,14 @@ H(k, c, s) == [kind |-> k, cell |-> c, shape |-> s]
 \* ---- counter: handle 1 = from_arc(cell 1), 2 = its clone, 3 = noop
 HTCounter == (1 :> H("counter", 1, "-")) @@ (2 :> H("counter", 1, "-")) @@ (3 :> H("counter", 0, "-"))
 CVals == {0, 1, 7, 8, 15}          \* with W = 16: 8 <-> 2^63, 15 <-> u64::MAX (= -1)
-AlphaCounter == {Op(h, op, "u64", a, 0, 0) : h \in {1, 2, 3}, op \in {"inc", "abs"}, a \in CVals}
+AlphaCounter == {Op(h, op, "u64", a, 0, 0) : h \in {1, 2}, op \in {"inc", "abs"}, a \in CVals}
+                  \cup {Op(3, "inc", "u64", 1, 0, 0), Op(3, "abs", "u64", 15, 0, 0)}
 
 \* ---- gauge: handle 1 = from_arc(cell 1), 2 = clone, 3 = noop
 HTGauge == (1 :> H("gauge", 1, "-")) @@ (2 :> H("gauge", 1, "-")) @@ (3 :> H("gauge", 0, "-"))
 GVals == {0, 1, 0 - 2, NaN, PInf, NInf}
-AlphaGauge == {Op(h, op, "f64", a, 0, 0) : h \in {1, 2, 3}, op \in {"inc", "dec", "set"}, a \in GVals}
+AlphaGauge == {Op(h, op, "f64", a, 0, 0) : h \in {1, 2}, op \in {"inc", "dec", "set"}, a \in GVals}
+                \cup {Op(3, "inc", "f64", 1, 0, 0), Op(3, "dec", "f64", NaN, 0, 0), Op(3, "set", "f64", PInf, 0, 0)}
                 \cup {Op(1, "inc", "dur", 1, 1, 0), Op(2, "dec", "u8", 3, 0, 0), Op(1, "set", "i8", 0 - 2, 0, 0)}
 \* FineCas: fewer values (the state carries the loaded value and the operation in flight per thread)
 AlphaGaugeCas == {Op(1, op, "f64", a, 0, 0) : op \in {"inc", "dec"}, a \in {1, 0 - 2, PInf}}
